@@ -697,7 +697,22 @@ const DOC_DECMODES: [(&str, u64); 9] = [
     ("SynchronizedOutput", 2026),
 ];
 
+/// "source boundary" stream: every integer constant written in the decoder's source (and its neighbours), harvested
+/// at run time, so that a threshold introduced by a change is reached by the numeric parameters drawn below
+fn bnd(rng: &mut Rng, cap: u64) -> u64 {
+    static B: OnceLock<Vec<u64>> = OnceLock::new();
+    let all = B.get_or_init(|| source_boundaries(&["src/decoder.rs", "src/keys.rs", "src/terminal.rs", "src/face.rs"], 4294967295));
+    let within: Vec<u64> = all.iter().copied().filter(|v| *v <= cap).collect();
+    if within.is_empty() {
+        rng.below(cap + 1)
+    } else {
+        *rng.pick(&within)
+    }
+}
 fn g_coord(rng: &mut Rng) -> u64 {
+    if rng.chance(1, 6) {
+        return bnd(rng, 65534);
+    }
     if rng.chance(2, 3) {
         *rng.pick(&COORDS)
     } else {
@@ -705,6 +720,9 @@ fn g_coord(rng: &mut Rng) -> u64 {
     }
 }
 fn g_num(rng: &mut Rng) -> u64 {
+    if rng.chance(1, 5) {
+        return bnd(rng, 4294967295);
+    }
     match rng.below(4) {
         0 => *rng.pick(&[0u64, 1, 9, 10, 99, 100, 255, 256, 65535, 65536, 4294967295]),
         1 => rng.below(100),
@@ -712,6 +730,9 @@ fn g_num(rng: &mut Rng) -> u64 {
     }
 }
 fn g_chan(rng: &mut Rng) -> u64 {
+    if rng.chance(1, 5) {
+        return bnd(rng, 255);
+    }
     if rng.chance(1, 2) {
         *rng.pick(&[0u64, 1, 15, 16, 17, 127, 128, 170, 239, 240, 254, 255])
     } else {
@@ -777,9 +798,9 @@ fn g_sgr(rng: &mut Rng) -> String {
             6 => format!("{}", 40 + rng.below(8)),
             7 => format!("{}", 90 + rng.below(8)),
             8 => format!("{}", 100 + rng.below(8)),
-            9 => format!("{};5;{}", code, rng.below(256)),
+            9 => format!("{};5;{}", code, if rng.chance(1, 3) { bnd(rng, 255) } else { rng.below(256) }),
             10 | 11 => format!("{};2;{};{};{}", code, c(rng), c(rng), c(rng)),
-            12 => format!("{}:5:{}", code, rng.below(256)),
+            12 => format!("{}:5:{}", code, if rng.chance(1, 3) { bnd(rng, 255) } else { rng.below(256) }),
             13 => format!("{}:2:{}:{}:{}", code, c(rng), c(rng), c(rng)),
             14 => format!("{}:2::{}:{}:{}", code, c(rng), c(rng), c(rng)),
             15 => (*rng.pick(&["7", "27", "39", "49"])).to_string(),
@@ -845,7 +866,7 @@ fn g_report(rng: &mut Rng) -> Value {
                     _ => 32 + rng.below(95),
                 }]),
             };
-            let mods = if rng.chance(1, 3) { 0 } else if rng.chance(1, 2) { *rng.pick(&[1u64, 2, 4, 5, 7, 8, 64, 128, 255]) } else { rng.below(256) };
+            let mods = if rng.chance(1, 3) { 0 } else if rng.chance(1, 6) { bnd(rng, 255) } else if rng.chance(1, 2) { *rng.pick(&[1u64, 2, 4, 5, 7, 8, 64, 128, 255]) } else { rng.below(256) };
             // "report alternate keys": shifted key and / or base layout key
             let alts = match rng.below(5) {
                 0 => json!([65 + rng.below(26)]),
@@ -856,7 +877,7 @@ fn g_report(rng: &mut Rng) -> Value {
             json!({"t": "kitty", "k": k, "mods": mods, "alts": alts})
         }
         3 => json!({"t": "level", "n": g_num(rng)}),
-        4 | 5 => json!({"t": "mouse", "code": if rng.chance(3, 4) { *rng.pick(&[0u64, 1, 2, 3, 64, 65]) + 4 * rng.below(8) + 32 * rng.below(2) } else { rng.below(256) },
+        4 | 5 => json!({"t": "mouse", "code": if rng.chance(1, 8) { bnd(rng, 255) } else if rng.chance(3, 4) { *rng.pick(&[0u64, 1, 2, 3, 64, 65]) + 4 * rng.below(8) + 32 * rng.below(2) } else { rng.below(256) },
                         "press": rng.chance(1, 2), "row": g_coord(rng), "col": g_coord(rng)}),
         6 => json!({"t": "cursor", "row": g_coord(rng), "col": g_coord(rng)}),
         7 => json!({"t": "size", "v": [g_num(rng), g_num(rng), g_num(rng), g_num(rng)]}),
@@ -895,7 +916,7 @@ fn g_report(rng: &mut Rng) -> Value {
             let name = match rng.below(3) {
                 0 => json!([0, 0]),
                 1 => json!([1, 0]),
-                _ => json!([2, if rng.chance(1, 2) { *rng.pick(&[0u64, 1, 9, 10, 15, 16, 99, 100, 255]) } else { rng.below(256) }]),
+                _ => json!([2, if rng.chance(1, 5) { bnd(rng, 255) } else if rng.chance(1, 2) { *rng.pick(&[0u64, 1, 9, 10, 15, 16, 99, 100, 255]) } else { rng.below(256) }]),
             };
             json!({"t": "color", "name": name, "c": c, "form": form, "upper": rng.chance(1, 2), "end": rng.below(2)})
         }
@@ -1035,6 +1056,20 @@ pub fn generate(rng: &mut Rng, n: usize, tier: &str) -> Vec<Value> {
                     v.push(json!({"reports": [{"t": "color", "name": [form % 3, 7 + form * 50], "c": c, "form": form, "upper": upper, "end": end}], "cuts": []}));
                 }
             }
+        }
+    }
+    // 6b. every colour an SGR-bearing report can carry: all 256 palette indices x {38, 48, 58} x {';' form, ':' form},
+    //     as an SGR event and as a DECRPSS face report (each report starts from an empty record, so a lost colour is
+    //     never masked by an earlier one); the 16 named colours, normal and bright, foreground and background
+    for i in 0..256u64 {
+        let semi = format!("38;5;{};48;5;{};58;5;{}", i, i, i);
+        let colon = format!("38:5:{};48:5:{};58:5:{}", i, i, i);
+        v.push(json!({"reports": [{"t": "sgr", "p": semi}, {"t": "sgr", "p": colon}, {"t": "facerep", "p": semi}, {"t": "facerep", "p": colon}], "cuts": []}));
+    }
+    for base in [30u64, 40, 90, 100] {
+        for k in 0..8u64 {
+            let p = format!("{}", base + k);
+            v.push(json!({"reports": [{"t": "sgr", "p": p}, {"t": "facerep", "p": p}], "cuts": []}));
         }
     }
     // 7. ambiguous legacy encodings: a bare ESC-prefixed key followed by more input
